@@ -158,7 +158,7 @@ def rule_a8_pairing(ctx):
                     conds.append((a.test, any(cur is x for x in a.body)))
                 cur = a
             appends.append((n, conds))
-    if len(appends) < 2:
+    if len(appends) < 1:
         raise AnalysisError('end-of-octets appends not found in encode()')
     from sa import intexpr
     param = el.params()[2]  # defMode
@@ -201,17 +201,24 @@ def rule_a8_pairing(ctx):
         ctx.ob('A8.pair', c, 'end-of-octets appended <=> indefinite header written (tag levels above the base)', not bad,
                '; '.join(bad) if bad else 'header condition `%s` and append guard agree for supportIndefLenMode=%r' % (norm(hcond), sup),
                node=(c.module.relpath, c.node.lineno))
-    # base level: primitive encodings force the definite form
-    forced = [n for n in walk_own(enc.node) if isinstance(n, ast.If) and any(norm(s_) == 'defModeOverride = True' for s_ in n.body)]
+    # base level: primitive encodings force the definite form: `defModeOverride = True` is reached exactly where the contents
+    # are known to be primitive, and only for the base tag (first pass of the tag loop, or before the loop)
+    from sa.cfg import known_at
+    ecfg = ctx.cfg(enc)
+    erd = reaching_defs(ecfg, enc.params())
+    forced = [n for n in ecfg.stmt_nodes() if n.kind == 'stmt' and norm(n.ast) == 'defModeOverride = True']
     ok = False
     for n in forced:
-        cj = set(norm(c) for c in (n.test.values if isinstance(n.test, ast.BoolOp) and isinstance(n.test.op, ast.And) else [n.test]))
-        # `not idx` = "this is the base tag": the enclosing `if not idx:` of the pinned shape, or a conjunct
-        outer = set(norm(a.test) for a in ancestors(n, enc.node) if isinstance(a, ast.If))
-        if 'not isConstructed' in cj and cj | outer <= {'not isConstructed', 'not idx'}:
+        prim = known_at(ecfg, n, 'isConstructed', False, erd)
+        in_loop = any(isinstance(a, (ast.For, ast.While)) for a in ancestors(n.ast, enc.node))
+        base_only = (not in_loop) or known_at(ecfg, n, 'idx', False, erd)
+        others = [norm(a.test) for a in ancestors(n.ast, enc.node) if isinstance(a, ast.If) and
+                  norm(a.test) not in ('isConstructed', 'not isConstructed', 'not idx', 'idx', 'not idx and not isConstructed',
+                                       'not isConstructed and not idx')]
+        if prim and base_only and not others:
             ok = True
-        elif 'not isConstructed' in cj:
-            raise AnalysisError('definite-form override under `%s` not understood' % norm(n.test))
+        elif prim and others:
+            raise AnalysisError('definite-form override under `%s` not understood' % others[0])
     ctx.ob('A8.pair', enc, 'primitive contents force the definite form at the base tag', ok,
            'found: %s' % ok if ok else 'no `defModeOverride = True` under `not isConstructed`: a primitive value would get an indefinite '
            'header in indefinite mode')
@@ -593,9 +600,9 @@ def rule_c13(ctx):
                ok and built, 'routes=%s built-from-initializers=%s' % (ok, built))
     # ---- encoder: one header per super tag, base first, prepended
     f = ctx.func('codec.ber.encoder.AbstractItemEncoder.encode')
-    loops = [n for n in walk_own(f.node) if isinstance(n, ast.For) and norm(n.iter) == 'enumerate(tagSet.superTags)']
+    loops = [n for n in walk_own(f.node) if isinstance(n, ast.For) and norm(n.iter) in ('enumerate(tagSet.superTags)', 'tagSet.superTags')]
     ok = len(loops) == 1
-    det = 'loop over enumerate(tagSet.superTags): %d' % len(loops)
+    det = 'loop over the super tags: %d' % len(loops)
     if ok:
         lp = loops[0]
         ets = [c for c in ast.walk(lp) if isinstance(c, ast.Call) and norm(c.func) == 'self.encodeTag']
@@ -604,7 +611,7 @@ def rule_c13(ctx):
                and 'header' in norm(s.value.left)]
         top = [s for s in lp.body if any(c in ast.walk(s) for c in ets)]
         ok = len(ets) == 1 and len(pre) >= 1 and len(top) == 1 and not isinstance(top[0], (ast.If, ast.For, ast.While)) \
-            and norm(ets[0].args[0]) == norm(lp.target.elts[1])
+            and norm(ets[0].args[0]) == norm(lp.target.elts[1] if isinstance(lp.target, ast.Tuple) else lp.target)
         if ok:
             # every path from the identifier to the next iteration prepends the header (however the arms are arranged)
             cfg = ctx.cfg(f)
